@@ -19,6 +19,8 @@ func (st *programState) evaluateExpr(expr parser.ValueExpr) (Value, InterpreterE
 		return Portion(*expr.ToRatio()), nil
 	case *parser.NumberLiteral:
 		return MonetaryInt(*big.NewInt(int64(expr.Number))), nil
+	case *parser.BigNumberLiteral:
+		return MonetaryInt(*new(big.Int).Set(expr.Number)), nil
 	case *parser.MonetaryLiteral:
 		asset, err := evaluateExprAs(st, expr.Asset, expectAsset)
 		if err != nil {
